@@ -516,7 +516,7 @@ void VfRun::halfrate_op(Handle &H, const Rec &op) {
   }
   if (sr.has_bs64 && !H.seekable) { H.hr = p > 0; H.io_dirty = true; return; }   // streaming handle in an ordinary link of a chain that has a 64-sample link further on: it cannot know; nothing exact to say from here
   check(ret == 0, P, "ov_halfrate", "toggle-failed", fmt("flag=%d ret=%ld", flag, ret));
-  check(p == (flag ? 1 : 0), P, "ov_halfrate", "flag-mismatch", fmt("flag=%d p=%d", flag, p));
+  check((p != 0) == (flag != 0), P, "ov_halfrate", "flag-mismatch", fmt("flag=%d p=%d", flag, p));
   if (H.seekable && ret == 0) {
     // the toggle re-seeks to the current position, clamped to the total (past an odd end the half-rate position is total+1); at half
     // rate that seek lands on the even position at or below it (relative to the link start, or globally - both accepted, see DESIGN)
